@@ -500,7 +500,25 @@ pub fn run(args: &[String]) -> i32 {
             // the pre-scan of dependencies runs `ldd`: make it unavailable
             unsafe { std::env::set_var("PATH", "/nonexistent") };
         }
-        let launched = e2e::launch(bin, &[script.clone(), built.dl.to_string_lossy().to_string()]);
+        // how the program spells the path it hands to dlopen: canonical, with `/./`, through `..`, or through a symlinked directory
+        // (the dynamic linker reports the path as spelled; /proc/<pid>/maps shows the real file)
+        let dl_abs = built.dl.to_string_lossy().to_string();
+        let dl_dir = built.dl.parent().map(|p| p.to_string_lossy().to_string()).unwrap_or_default();
+        let dl_name = built.dl.file_name().map(|p| p.to_string_lossy().to_string()).unwrap_or_default();
+        let dir_name = std::path::Path::new(&dl_dir).file_name().map(|p| p.to_string_lossy().to_string()).unwrap_or_default();
+        let spelling = rng.below(4);
+        let dl_arg = match spelling {
+            0 => dl_abs.clone(),
+            1 => format!("{dl_dir}/./{dl_name}"),
+            2 => format!("{dl_dir}/../{dir_name}/{dl_name}"),
+            _ => {
+                let link = format!("{dl_dir}_link");
+                let _ = std::os::unix::fs::symlink(&dl_dir, &link);
+                format!("{link}/{dl_name}")
+            }
+        };
+        *col.hist.entry(format!("dlopen-path:{}", ["canonical", "dot", "dotdot", "symlinked-dir"][spelling as usize])).or_default() += 1;
+        let launched = e2e::launch(bin, &[script.clone(), dl_arg]);
         unsafe { std::env::set_var("PATH", &saved_path) };
         let mut s = match launched {
             Ok(s) => s,
